@@ -36,6 +36,9 @@ func c06Rules(p *core.Prog, r *core.Run) {
 	directionOwnership(p, r, m, "C06.M6")
 	// the retry comparison looks at the lists as the client sent them
 	c05SniAlpn(p, r, m, "C06.M4.parse")
+	// the alert that answers each class of error (missing_extension,
+	// illegal_parameter, decrypt_error for the retry rules)
+	c04AlertMap(p, r, m, "C06.M4.alerts")
 }
 
 // c06State holds the rules on the inspection state machine; pre is the
@@ -202,6 +205,42 @@ func c06State(p *core.Prog, r *core.Run, m *echModel, pre string) {
 		}
 	}
 	r.Floor(pre+".M3", 6)
+	// ... and an application_data record always does: whatever else is known
+	// about the connection, once the client's record of type 23 has been read no
+	// later record of the client is looked at
+	{
+		isRec0 := func(e *core.Expr) bool {
+			return e.Op == "index" && e.Args[1].Name == "0" && e.Args[0].Op == "ext" && e.Args[0].Name == "#0" && e.Args[0].Args[0].Op == "call" && e.Args[0].Args[0].Name == "ech.readRecord"
+		}
+		isRecErr := func(e *core.Expr) bool {
+			return e.Op == "ext" && e.Name == "#1" && e.Args[0].Op == "call" && e.Args[0].Name == "ech.readRecord"
+		}
+		cfg, _ := pruneBy(p, m.read, []assumption{
+			cmpAssume("err == nil", "==", isRecErr, isConstName("nil")),
+			cmpAssume("record[0] == 23", "==", isRec0, isConstName("23")),
+		})
+		latch := map[*ssa.BasicBlock]bool{}
+		for _, st := range fieldStores(p, []*ssa.Function{m.read}, m.fConn["readPassthrough"]) {
+			if v := p.X(st.Val); v.Op == "const" && v.Name == "true" && st.Parent() == m.read {
+				latch[st.Block()] = true
+			}
+		}
+		n := 0
+		for _, s := range callSites(p, []*ssa.Function{m.read}, `ech\.readRecord`) {
+			if s.Fn != m.read || !cfg.Live(s.Block()) {
+				continue
+			}
+			n++
+			open := ""
+			for b := range cfg.ReachableAvoiding(s.Block(), latch) {
+				if ret, ok := b.Instrs[len(b.Instrs)-1].(*ssa.Return); ok && b != s.Block() {
+					open = p.InstrPos(ret)
+				}
+			}
+			r.Check(pre+".M3", fmt.Sprintf("Read:appdata-latches#%d", n), open == "", p.InstrPos(s.Instr), "after an application_data record of the client has been read (no error, type 23) every way out of Read has set readPassthrough (a way out that has not: %s)", open)
+		}
+		r.Check(pre+".M3", "Read:appdata-latches", n >= 1, p.Pos(m.read.Pos()), "Read reads the client's records with readRecord (%d sites)", n)
+	}
 
 	// the list the retry is compared with cannot be edited from outside
 	connAccessorsCopy(p, r, m, pre+".M5")
